@@ -1,6 +1,6 @@
 (* extract/Entry_E5b.v — typed shapes on the wire; might_paint and subpath pruning. *)
 From Coq Require Import ZArith QArith List Bool Ascii String.
-From Pico Require Import Num PyStr Value G_geom G_transform Walk Skia Shape Clip Entry_E1 Entry_E3 Entry_E5a.
+From Pico Require Import Num PyStr Value G_geom G_transform Walk Skia Shape Clip Reuse Entry_E1 Entry_E3 Entry_E5a.
 Import ListNotations.
 Local Open Scope string_scope.
 
@@ -42,6 +42,9 @@ Definition entry_E5b (orc : oracle) (name : string) (v : value) : option value :
   if name =? "might_paint" then Some (v_res VB (might_paint MO sk (shape_of v)))
   else if name =? "apply_style" then Some (v_res v_shape (apply_style (N:=QOps) (shape_of v)))
   else if name =? "remove_empty_subpaths" then Some (v_res v_path (remove_empty_subpaths MO sk (shape_of v)))
+  else if name =? "affine_between" then
+    Some (v_res (v_opt v_aff) (affine_between_code MO (path_of (arg 0 v)) (path_of (arg 1 v)) (getQ (arg 2 v))))
+  else if name =? "apply_affine" then Some (v_path (apply_affine MO (aff_of (arg 0 v)) (path_of (arg 1 v))))
   else if name =? "rect_intersection" then
     Some (v_opt v_rect (Rect_intersection QOps (rect_of (arg 0 v)) (rect_of (arg 1 v))))
   else if name =? "shape_bbox" then Some (v_res v_rect (shape_bbox MO sk (shape_of v)))
